@@ -77,6 +77,24 @@ CLAIMED = {
             "derivation, dispatch, keep_sign and re-application checked on float arrays",
             "real-number axioms of the standard library; rounding of exp/division not modelled",
             "Coq proof (Reals) over translator output + correspondence"),
+    "C12": ("Coq theorems over the reals: mean in range, mean minimises squared deviations, the update never worsens the "
+            "cost along the old optimal paths (hence, DTW being a minimum over paths, the sum of squared DTW distances), "
+            "the association table built like the code's sums exactly the aligned pairs' costs, zero cost is a fixed "
+            "point; Python result compared exactly (rationals) with means over the extracted optimal paths, C results "
+            "with the property's postconditions incl. the exact objective",
+            "real-number axioms; dba hand-modelled; engines may differ on ties",
+            "Coq proof (Reals) + exact correspondence through the extracted path model"),
+    "C14": ("Coq theorem C14_search_exact: the heap-with-running-bound search with lower-bound skipping and early "
+            "abandoning returns exactly the k smallest eligible distances, for all candidate lists, k, bounds; lower "
+            "bounds irrelevant; cache prefix; operation histories on one SubsequenceSearch object compared with the "
+            "exhaustive answer and with the extracted search model",
+            "SubsequenceSearch.align hand-modelled; contracts lb<=dist (C09) and bounded distance (C03) are inputs",
+            "Coq proof (invariant over the candidate fold) + history correspondence"),
+    "C15": ("Coq theorems for every choice/orientation policy: merge distances non-decreasing and <= max_dist, stop only "
+            "when nothing within max_dist is left, absorbed series never reused, at most n-1 merges; exact merge "
+            "sequence vs extracted model, partition/prototype/tree/SciPy linkage checked on the implementation",
+            "partial: partition and tree shape are checked on the implementation, SciPy trusted",
+            "Coq proof (abstract policy) + correspondence + postcondition checker"),
 }
 
 
